@@ -67,6 +67,18 @@ func init() {
 			return e.ts.Ite(a[0].(*Term), a[1].(*Term), a[2].(*Term))
 		},
 
+		zzPath + ".RetentionDays": func(e *Exec, fn *ssa.Function, a []Value) Value { return FloatV{Opaque: true} },
+		"(" + repoMod + "/config.Sweeper).RetentionDuration": func(e *Exec, fn *ssa.Function, a []Value) Value {
+			if t, ok := e.envState["retention"].(*Term); ok {
+				return t
+			}
+			t := e.ts.Var("retention", 64)
+			e.nondets = append(e.nondets, nondetRec{Name: "retention", T: t})
+			e.envState["retention"] = t
+			e.assume(e.ts.Cmp(OpSle, e.ts.Const(64, 0), t))
+			return t
+		},
+
 		// ----- bytes / strings -----
 		"bytes.Equal": func(e *Exec, fn *ssa.Function, a []Value) Value {
 			return e.bytesEq(e.sliceBytes(a[0].(SliceV)), e.sliceBytes(a[1].(SliceV)))
